@@ -137,6 +137,20 @@ REG['C15'] = dict(
     'kinds, schedule, fired faults, rule kinds, which rules became active); '
     'non-trivial = at least one built-in rule call judged')
 
+REG['C08'] = dict(
+    oracle='c08', profiles=[('motor', 3, None), ('ctrl', 1, None)],
+    quick=5000, thorough=200000,
+    vacuity=['law_instants', 'current_instants', 'dead_zone_instants',
+             'F_BOUNDARY_dead_zone_edge', 'beyond_no_load_speed',
+             'negative_speed', 'negative_duty', 'mirror_runs',
+             'mirror_samples'],
+    rule='scripted duty schedules sweeping [-1,1], sitting on +-i0/imax and '
+    'its floating-point neighbours, initial speeds beyond no-load speed, '
+    'overloads; law checked at every recorded instant; plus an exact mirror '
+    'run (initial state, duty history and load negated); distinct = (chain '
+    'kinds, schedule, fired faults); non-trivial = at least one recorded '
+    'instant compared with the documented law')
+
 NOT_APPLICABLE = [
     {'property_id': 'C05',
      'reason': 'stateless function of (value, from-unit, to-unit): no schedule, clock, fault, I/O or history for a simulator to act on; its quantifier is decided by exhaustive enumeration of unit pairs, a different technique (DESIGN.md section 6)'},
